@@ -132,6 +132,9 @@ var ends = []end{
 	{"Rollback, return 7", []string{aRollback, aReturn}, true},
 	{"Complete, Complete", []string{aComplete, aComplete, aNormal}, true},
 	{"Rollback, Rollback", []string{aRollback, aRollback, aNormal}, true},
+	{"Complete, Rollback", []string{aComplete, aRollback, aNormal}, true},
+	{"Rollback, Complete", []string{aRollback, aComplete, aNormal}, true},
+	{"return 7 inside try-catch", []string{aTryReturn}, true},
 	{"conflict, fall off", []string{aConflict, aNormal}, false},
 	{"conflict, return 7", []string{aConflict, aReturn}, false},
 	{"conflict, throw", []string{aConflict, aThrow}, false},
@@ -149,6 +152,7 @@ var actionSrc = map[string]string{
 	aLoopReturn: "for (i = 0; i < 3; ++i)\n if i is 1\n return 7",
 	aNestReturn: "b = { return 7 }\n b()",
 	aCallThrow:  `(function () { throw "x" })()`,
+	aTryReturn:  "try\n return 7\n catch (e)\n tt.swallowed = e",
 	aComplete:   `t.Complete()`,
 	aRollback:   `t.Rollback()`,
 	// A second, overlapping transaction changes row 0 and commits; reading row 0
@@ -167,6 +171,9 @@ type wrapper struct {
 	callable bool // the callable is a function instead of a block
 	// first: another transaction block ran (and inserted row 2) before
 	first bool
+	// outer: the call is inside the block of another transaction that inserted
+	// row 2: that one too commits exactly when its block is not left by an exception
+	outer bool
 }
 
 var wrappers = []wrapper{
@@ -176,6 +183,9 @@ var wrappers = []wrapper{
 	{name: "after another transaction block", first: true,
 		pre: "Transaction(update:) { |t0| t0.QueryDo(\"insert { k: 2, v: 'first' } into tbl\") }\n"},
 	{name: "callable is a function", callable: true},
+	{name: "nested inside another transaction block", outer: true,
+		pre:  "Transaction(update:)\n { |t0|\n t0.QueryDo(\"insert { k: 2, v: 'first' } into tbl\")\n",
+		post: "\n tt.outerfin = true\n }"},
 }
 
 type prog struct {
@@ -257,7 +267,7 @@ func interpret(p prog) expect {
 		case aNormal:
 		case aValue:
 			value = "123"
-		case aReturn, aLoopReturn, aNestReturn:
+		case aReturn, aLoopReturn, aNestReturn, aTryReturn:
 			outcome, value = "return", "7"
 		case aThrow, aCallThrow:
 			outcome, exception = "throw", "x"
@@ -299,6 +309,10 @@ func interpret(p prog) expect {
 		} else {
 			committed, status = pending, "completed"
 		}
+	}
+	if w.outer && outcome != "throw" {
+		committed = committed.clone()
+		committed["2"] = "first"
 	}
 	ex := expect{table: committed, ended: true}
 	switch outcome {
@@ -467,12 +481,12 @@ func programs() []prog {
 		for w := range wrappers {
 			for wk := range works {
 				for e := range ends {
-					if !update && (!works[wk].read || !ends[e].read || wrappers[w].first) {
+					if !update && (!works[wk].read || !ends[e].read || wrappers[w].first || wrappers[w].outer) {
 						continue
 					}
 					// the provoked conflict needs a transaction that has written
 					// but has not touched row 0 before
-					if ends[e].actions[0] == aConflict && !strings.Contains(works[wk].src, "k: 1") {
+					if ends[e].actions[0] == aConflict && (!strings.Contains(works[wk].src, "k: 1") || wrappers[w].outer) {
 						continue
 					}
 					if wrappers[w].callable {
@@ -480,7 +494,7 @@ func programs() []prog {
 						skip := false
 						for _, a := range ends[e].actions {
 							switch a {
-							case aBreak, aContinue, aLoopReturn, aNestReturn:
+							case aBreak, aContinue, aNestReturn:
 								skip = true
 							}
 						}
